@@ -40,6 +40,67 @@ pub fn run(ctx: &RunCtx) -> i32 {
 }
 
 pub fn replay(prop: &str, path: &str) -> i32 {
-    println!("replay {} {}: not implemented yet", prop, path);
-    2
+    let body = match std::fs::read_to_string(path).ok().and_then(|s| serde_json::from_str::<serde_json::Value>(&s).ok()) {
+        Some(b) => b,
+        None => {
+            println!("MACHINERY-ERROR cannot read replay file {}", path);
+            return 2;
+        }
+    };
+    let key = body["finding_key"].as_str().unwrap_or("").to_string();
+    println!("replay of {} finding '{}': {}", prop, key, body["detail"].as_str().unwrap_or(""));
+    let r = &body["replay"];
+    match r["kind"].as_str().unwrap_or("") {
+        "history" if !r["events_json"].is_null() => match crate::e3::replay_history(prop, r) {
+            Ok(v) if v.is_empty() => {
+                println!("history re-executed on the real client: no violation (the finding does not reproduce on this tree)");
+                0
+            }
+            Ok(v) => {
+                for (k, d) in &v {
+                    println!("  violation key={} detail={}", k, d);
+                }
+                println!("VIOLATION property={} replay={}", prop, path);
+                1
+            }
+            Err(e) => {
+                println!("MACHINERY-ERROR {}", e);
+                2
+            }
+        },
+        "bytes" | "client-bytes" if r["bytes"].is_string() || r["perturbed"].is_string() || r["tampered"].is_string() || r["corrupted"].is_string() => {
+            let hexs = ["bytes", "perturbed", "tampered", "corrupted"].iter().find_map(|k| r[*k].as_str()).unwrap();
+            let bytes = crate::refs::crypto::unhex(hexs);
+            let key_subj = crate::seeds::key().subject().unwrap();
+            let mut rep = crate::util::Report::new();
+            let decs = c03::decoders(&key_subj);
+            for (o, d) in &decs {
+                let res = crate::cu::decode_with(d, &bytes);
+                println!("  {:<55} -> {}", o.show(), match res {
+                    Ok(Ok((d, _))) => format!("Ok size {} attrs {:?}", d.size, d.attrs.iter().map(|a| a.kind()).collect::<Vec<_>>()),
+                    Ok(Err(e)) => format!("Err {}", e),
+                    Err(p) => format!("PANIC {}", p),
+                });
+            }
+            c03::probe_decoders(&bytes, "replay", &decs, &mut rep);
+            c18::relations(&bytes, "replay", &decs, &mut rep);
+            if rep.violations.is_empty() {
+                println!("decoder-side oracles (C03 size / panic relations, C18 option relations) hold for these bytes; property-specific oracle: re-run ./check {} quick", prop);
+                0
+            } else {
+                for (k, (v, _)) in &rep.violations {
+                    println!("  violation key={} detail={}", k, v.detail);
+                }
+                println!("VIOLATION property={} replay={}", prop, path);
+                1
+            }
+        }
+        _ => {
+            // inputs that are described rather than encoded (menu messages, chunkings, chains): the case is re-found by
+            // the deterministic quick enumeration, which visits it again
+            println!("replaying through the deterministic quick enumeration of {}", prop);
+            let ctx = RunCtx { property: prop.to_string(), tier: "quick".into(), seed: 0, start: std::time::Instant::now() };
+            run(&ctx)
+        }
+    }
 }
